@@ -88,7 +88,7 @@ var kindCoq = []string{"KEvent", "KScalar", "KDelta"}
 
 // CsvRow is one parsed row of a CSV file.
 type CsvRow struct {
-	T10k  int64  // time in 1/10000 s as printed
+	T10k  int64 // time in 1/10000 s as printed
 	IsNum bool
 	Num   float64
 	Text  string // unquoted text for events; raw cell if it is neither
@@ -289,7 +289,12 @@ func main() {
 	e2e := flag.String("e2e", "", "write end-to-end play inputs into this directory")
 	e2eN := flag.Int("e2e-n", 12, "")
 	e2eCheck := flag.String("e2echeck", "", "evaluate the plays under this directory")
+	replay := flag.String("replay", "", "replay file written by the check (in-process cases)")
 	flag.Parse()
+	if *replay != "" {
+		defer cmd.VerifLogScope()()
+		os.Exit(doReplay(*replay))
+	}
 	rng := vh.Rng(*seed)
 	if *e2e != "" {
 		writeE2E(rng, *e2e, *e2eN)
@@ -604,4 +609,47 @@ func readJSON(path string, v interface{}) {
 		fmt.Fprintln(os.Stderr, err)
 		os.Exit(2)
 	}
+}
+
+// doReplay runs the configuration and items of a replay file through the real
+// code again and compares the number of rows of every expected file.
+func doReplay(path string) int {
+	var r struct {
+		Config   string             `json:"config"`
+		Items    []cmd.VerifC08Item `json:"items"`
+		Expected []expJSON          `json:"expected_points"`
+	}
+	readJSON(path, &r)
+	if r.Config == "" || len(r.Items) == 0 {
+		fmt.Println("replay file holds no in-process case (config/items)")
+		return 2
+	}
+	res := cmd.VerifSpotlightPlay(r.Config, int64(EpochSec)*1000000000, r.Items)
+	fmt.Printf("parse error: %q  audition error: %q  panic: %q\n", res.ParseErr, res.AuditErr, res.Panic)
+	bad := 0
+	for _, e := range r.Expected {
+		got := res.CSV[e.File]
+		n := 0
+		if got != "" {
+			n = len(strings.Split(strings.TrimRight(got, "\n"), "\n"))
+		}
+		mark := "ok"
+		if n != len(e.Points) {
+			mark = "MISMATCH"
+			bad++
+		}
+		fmt.Printf("%s (%s): expected %d rows, got %d  %s\n", e.File, e.Kind, len(e.Points), n, mark)
+		for _, p := range e.Points {
+			fmt.Println("    expected " + p)
+		}
+		for _, l := range strings.Split(strings.TrimRight(got, "\n"), "\n") {
+			if l != "" {
+				fmt.Println("    got      " + l)
+			}
+		}
+	}
+	if bad > 0 || res.AuditErr != "" || res.Panic != "" {
+		return 1
+	}
+	return 0
 }
